@@ -230,7 +230,7 @@ main()
 # ----------------------------------------------------------------------------------------------
 # (b) one compile request through cythonize()/compile(), in a fresh process
 RUNNER = r'''
-import sys, os, json, io, glob, contextlib, traceback
+import sys, os, json, io, glob, contextlib, traceback, hashlib
 import pyload; pyload.install()
 def outputs(base, files):
     ps = []
@@ -279,7 +279,8 @@ def one(req):
     pyload.assert_sources()
     arts = {}
     for p in outputs(base, req["files"]):
-        with open(p, encoding="utf8", errors="replace") as f: arts[p] = f.read().replace(root, "ROOTDIR")
+        with open(p, encoding="utf8", errors="replace") as f:
+            arts[p] = hashlib.sha256(f.read().replace(root, "ROOTDIR").encode("utf8")).hexdigest()
     after = sorted(os.listdir(cache)) if cache and os.path.isdir(cache) else []
     log = out.getvalue()
     res.update(artifacts=arts, log=log[-2000:], cache_before=before, cache_after=after,
@@ -310,6 +311,8 @@ def main():
         Cython.Utils.clear_function_caches()
         Cython.Build.Dependencies._dep_tree = None
     results = []
+    import gc
+    gc.collect(); gc.freeze()       # keep the forked children from copying the whole heap
     for i, req in enumerate(spec["requests"]):
         resfile = os.path.join(spec["tmp"], "res%d.json" % i)
         if os.path.exists(resfile): os.unlink(resfile)
@@ -335,7 +338,7 @@ main()
 
 # a sequence of cython_inline calls in ONE process sharing lib_dir (in-memory + on-disk module cache)
 INLINE_RUNNER = r'''
-import sys, os, json, io, glob, contextlib, traceback
+import sys, os, json, io, glob, contextlib, traceback, hashlib
 import pyload; pyload.install()
 def main():
     spec = json.load(sys.stdin)
@@ -619,7 +622,7 @@ def same_outcome(a, b):
 
 
 def digest(res):
-    return {k: hashlib.sha1(v.encode()).hexdigest()[:10] for k, v in res.get("artifacts", {}).items()} or res.get("error")
+    return {k: v[:12] for k, v in res.get("artifacts", {}).items()} or res.get("error")
 
 
 def run(ctx):
@@ -666,26 +669,29 @@ def run(ctx):
         alt = apply_variant(base, comp, val)
         seq = [base, alt, base, alt][:steps]
         plans.append(("%s_%s" % (mode[:2], re.sub(r"\W", "_", comp)), mode, [comp], seq))
-    steps = 4
+    steps = 3 if quick else 4
     variants = []
     for fn, comp in FILE_COMP.items():
         variants.append((comp, ALT_FILES[fn], "q"))
     variants += OPT_VARIANTS + GLOB_VARIANTS
     variants += [("dir:" + d, v, "q") for d, v in DIR_QUICK] + [("dir:" + d, v, "") for d, v in DIR_MORE]
     variants.append(("ext:language", "c++", "q"))
+    QUICK_CY = ("src:bytes", "dep:cimport_bytes", "dep:include_bytes", "opt:language_level", "opt:compile_time_env",
+                "opt:include_path", "glob:docstrings", "dir:boundscheck", "dir:cdivision", "dir:language_level",
+                "ext:language")
     for comp, val, tag in variants:
-        if quick and tag != "q":
+        if quick and comp not in QUICK_CY:
             continue
         single("cythonize", comp, val, steps)
     comp_variants = [v for v in variants if not v[0].startswith("ext:")] + COMPILE_ONLY
     if quick:
-        picks = [v for v in comp_variants if v[0] in ("src:bytes", "opt:cplus", "dir:cdivision", "glob:docstrings")]
+        picks = [v for v in comp_variants if v[0] in ("src:bytes", "opt:cplus", "dir:cdivision")]
     else:
-        picks = comp_variants
+        picks = [v for v in comp_variants if v[2] == "q" or v[0].startswith(("glob:", "opt:"))]
     for comp, val, tag in picks:
         single("compile", comp, val, steps)
     # random walks: each step changes one input (to its alternative or back)
-    nwalk, wlen = (2, 6) if quick else (10, 8)
+    nwalk, wlen = (1, 5) if quick else (8, 8)
     pool = [v for v in variants if not v[0].startswith("ext:") and v[0] not in ("opt:gdb_debug", "dir:formal_grammar", "dir:set_initial_path", "dir:language_level")]
     for w in range(nwalk):
         mode = "cythonize" if w % 2 == 0 else "compile"
@@ -705,7 +711,7 @@ def run(ctx):
             comps.append(comp)
         plans.append(("walk%d" % w, mode, sorted(set(comps)), seq))
 
-    runner = Runner(ctx, 4 if quick else 8)
+    runner = Runner(ctx, 3 if quick else 8)
     all_reqs = {}
     for _h, _m, _c, seq in plans:
         for rq in seq:
@@ -796,6 +802,9 @@ def run(ctx):
 
     # ---- (c) cython_inline ----
     run_inline(ctx, quick, in_rows, req_lists["required_inline"])
+    import resource
+    ru = resource.getrusage(resource.RUSAGE_CHILDREN)
+    ctx.note("child processes: %.0f s user + %.0f s system CPU" % (ru.ru_utime, ru.ru_stime))
 
 
 def classify_stale(mode, comps, hit):
@@ -834,7 +843,7 @@ def run_inline(ctx, quick, in_rows, required):
     dll2 = var(dir={"language_level": 2})
     dll3 = var(dir={"language_level": 3})
     if quick:
-        procs = [[base, cdiv, base], [cdiv, ll2]]
+        procs = [[base, cdiv, base], [cdiv]]
     else:
         procs = [[base, cdiv, base, ll2, flt, cdiv], [cdiv, base, code2, dll3, dll2, dll3], [dll2, ll2, flt]]
     flat = [rq for p in procs for rq in p]
